@@ -20,7 +20,8 @@ RULE = ("histories over {load, convert collection, convert rule, init pipeline, 
         "unrenderable value, missing detection, NotImplementedError inside negated not-equals rendering}}: all histories of "
         "length <= 2 and seeded random ones up to length 8, each followed by a probe via convert() and via convert_rule(); "
         "distinct = distinct (history, probe kind); non-trivial = history length >= 2"
-        "; probe kinds incl. cased and plain string operators, regex, null; post-processing items that keep parsed templates (json, embed); per-rule detection contents")
+        "; probe kinds incl. cased and plain string operators, regex, null; post-processing items that keep parsed templates (json, embed); per-rule detection contents"
+        "; the user pipeline reads placeholder values from a file (filtered); history op: a second backend with backend options")
 ASSUMPTIONS = [
     "fresh objects = a new pipeline from the same dict, a new backend instance of a new class object built from the same configuration, caches cleared",
     "observation through a finalize_query hook defined in the harness's backend subclass (state seen by the conversion) and a template post-processing item (state seen by the item)",
